@@ -40,8 +40,8 @@ ASSUMPTIONS = [
 EXPECTED_PROBES = ["resave", "foreign", "foreign.longloca", "woff2.loca_checked", "metrics.checked.vmtx", "validated.sfnt", "validated.woff", "validated.woff2", "validated.ttc", "derived.checked", "flavour.compared", "dest.unseekable", "padding.4", "woff.metadata"]
 
 TIERS = {
-    "quick": {"budget_s": 170, "determinism_sample": 10, "n": {"save": 2600, "pipe": 500, "ttc": 300}, "minimise_s": 40, "max_minimise": 3},
-    "thorough": {"budget_s": 1700, "determinism_sample": 100, "n": {"save": 40000, "pipe": 8000, "ttc": 4000}, "minimise_s": 120, "max_minimise": 6},
+    "quick": {"budget_s": 600, "determinism_sample": 10, "n": {"save": 2600, "pipe": 500, "ttc": 300}, "minimise_s": 40, "max_minimise": 3},
+    "thorough": {"budget_s": 5400, "determinism_sample": 100, "n": {"save": 40000, "pipe": 8000, "ttc": 4000}, "minimise_s": 120, "max_minimise": 6},
 }
 
 
